@@ -557,7 +557,9 @@ def _tasks(rng, tier):
     quick = tier == "quick"
     fixed = ["W-C", "N-A"] if quick else list(FIXED)
     n_rand = 3 if quick else 10
-    rand = [(f"random", _random_mspec(rng)) for _ in range(n_rand)]
+    rand = [("random", _random_mspec(rng)) for _ in range(n_rand)]
+    pool_rng = np.random.default_rng(16)
+    pool = [(f"R{i + 1}", _random_mspec(pool_rng)) for i in range(8)][:(3 if quick else 8)]
     tasks.append({"task": "vt", "region": "sea-states", "n": 2000 if quick else 200000, "seed": S(), "cost": 0.1})
     tasks.append({"task": "vt", "region": "full-domain", "n": 2000 if quick else 200000, "seed": S(), "cost": 0.1})
     tasks.append({"task": "triple", "n": 1000 if quick else 100000, "seed": S(), "cost": 0.1})
@@ -571,9 +573,9 @@ def _tasks(rng, tier):
         tasks.append({"task": "cdf", "tag": tag, "model": ms, "n": 200000, "levels": lv, "as_list": bool(i % 2), "default_sample": i == 0, "seed": S(), "cost": 4.0 if quick else 10.0})
     # conditional samples: fixed models over all levels, both dims.
     # n = 1e5 (the size conditional_cdf itself uses), 1e4 where the sampler is expected to run into max_iter.
-    # Two scenarios lose about 1 % of the conditional mass, i.e. the DKW half width at n = 1e5 itself (a coin flip
+    # Four scenarios lose about 1 % of the conditional mass, i.e. the DKW half width at n = 1e5 itself (a coin flip
     # over seeds); they are decided with n = 1e6 instead.
-    n_override = {("W-A", 0, "1-1e-4"): 1_000_000, ("N-C", 1, "1-1e-4"): 1_000_000}
+    n_override = {("W-A", 0, "1-1e-4"): 1_000_000, ("N-C", 1, "1-1e-4"): 1_000_000, ("R6", 1, "0.999"): 1_000_000, ("R6", 0, "0.5"): 1_000_000}
     k = 0
     for tag in fixed:
         ms = FIXED[tag]
@@ -587,17 +589,21 @@ def _tasks(rng, tier):
             k += 1
             tasks.append({"task": "csample", "case": f"csample/{tag}/dim=0/q={name}", "tag": tag, "model": ms, "dim": 0, "level": lv, "level_name": name,
                           "n": n_override.get((tag, 0, name), 10000 if extreme else 100000), "rs": rs_kinds[k % 3], "given_as": "float", "seed": S(), "cost": 3.0 if extreme else 1.0})
-    # random models: bulk levels must pass; the most extreme level is reported under one aggregated case id
-    for tag, ms in rand:
-        for name, lv in [LEVELS[1], LEVELS[2], LEVELS[3]]:
+    # random models of the same structure: a FIXED pool R1..R8 (drawn once from default_rng(16)), so that a case id
+    # denotes the same model for every seed - whether the support search of the rejection sampler truncates a given
+    # conditional depends discontinuously on the model parameters (0.7-grid of x_max), a per-seed model would turn
+    # the verdict into a lottery. Per-seed random models are used for the deterministic clauses above.
+    for tag, ms in pool:
+        lv1 = [LEVELS[1], LEVELS[3], LEVELS[4], LEVELS[8]] if quick else [LEVELS[1], LEVELS[2], LEVELS[3], LEVELS[4], LEVELS[5], LEVELS[8]]
+        for name, lv in lv1:
             k += 1
-            tasks.append({"task": "csample", "case": f"csample/random/dim=1/q={name}", "tag": tag, "model": ms, "dim": 1, "level": lv, "level_name": name,
-                          "n": 50000, "rs": rs_kinds[k % 3], "given_as": "float", "seed": S(), "cost": 0.4})
-        tasks.append({"task": "csample", "case": "csample/random/dim=0/q=0.5", "tag": tag, "model": ms, "dim": 0, "level": 0.5, "level_name": "0.5",
-                      "n": 50000, "rs": rs_kinds[k % 3], "given_as": "float", "seed": S(), "cost": 1.0})
-    for tag, ms in (rand[:1] if quick else rand):
-        tasks.append({"task": "csample", "case": "csample/random/dim=1/q=1-1e-7", "tag": tag, "model": ms, "dim": 1, "level": {"one_minus": 1e-7}, "level_name": "1-1e-7",
-                      "n": 10000, "rs": "int", "given_as": "float", "seed": S(), "cost": 3.0})
+            far = name in ("1-1e-4", "1-1e-7")
+            tasks.append({"task": "csample", "case": f"csample/{tag}/dim=1/q={name}", "tag": tag, "model": ms, "dim": 1, "level": lv, "level_name": name,
+                          "n": n_override.get((tag, 1, name), 10000 if far else 100000), "rs": rs_kinds[k % 3], "given_as": "float", "seed": S(), "cost": 3.0 if far else 0.5})
+        for name, lv in ([LEVELS[1]] if quick else [LEVELS[1], LEVELS[3]]):
+            k += 1
+            tasks.append({"task": "csample", "case": f"csample/{tag}/dim=0/q={name}", "tag": tag, "model": ms, "dim": 0, "level": lv, "level_name": name,
+                          "n": n_override.get((tag, 0, name), 100000), "rs": rs_kinds[k % 3], "given_as": "float", "seed": S(), "cost": 1.0})
     # conditional cdf / icdf
     for i, tag in enumerate(fixed):
         ms = FIXED[tag]
@@ -616,8 +622,8 @@ def _tasks(rng, tier):
                       "probs": [0.5], "pf": 0.1, "rs": "int", "as": "ndarray", "seed": S(), "cost": 1.5})
         tasks.append({"task": "ccdf", "kind": "cdf", "case": f"ccdf/{tag}/dim=1/q=1-1e-5", "tag": tag, "model": ms, "dim": 1, "level": {"one_minus": 1e-5}, "level_name": "1-1e-5",
                       "probs": [0.5], "rs": "int", "as": "ndarray", "seed": S(), "cost": 1.5})
-    for tag, ms in rand[:(1 if quick else len(rand))]:
-        tasks.append({"task": "ccdf", "kind": "icdf", "case": "cicdf/random/dim=1/q=0.9", "tag": tag, "model": ms, "dim": 1, "level": 0.9, "level_name": "0.9",
+    for tag, ms in pool[:(1 if quick else len(pool))]:
+        tasks.append({"task": "ccdf", "kind": "icdf", "case": f"cicdf/{tag}/dim=1/q=0.9", "tag": tag, "model": ms, "dim": 1, "level": 0.9, "level_name": "0.9",
                       "probs": [0.1, 0.9], "pf": float(rng.uniform(0.1, 1.0)), "rs": "int", "as": "ndarray", "seed": S(), "cost": 1.0})
     # IFORM contours
     for i, tag in enumerate(fixed):
@@ -628,8 +634,8 @@ def _tasks(rng, tier):
                           "rs": rs_kinds[(i + npts) % 3], "seed": S(), "cost": 0.5 * npts})
         for alpha in ((1e-5,) if quick else (1e-5, 2e-6)):
             tasks.append({"task": "iform", "case": f"iform/{tag}/alpha={alpha:g}", "tag": tag, "model": ms, "alpha": alpha, "pf": 0.1, "n_points": 2, "rs": "int", "seed": S(), "cost": 6.0})
-    for tag, ms in rand[:(1 if quick else 5)]:
-        tasks.append({"task": "iform", "case": "iform/random/alpha=0.03", "tag": tag, "model": ms, "alpha": 0.03, "pf": float(rng.uniform(0.1, 1.0)), "n_points": 6 if quick else 12,
+    for tag, ms in pool[1:(2 if quick else 4)]:
+        tasks.append({"task": "iform", "case": f"iform/{tag}/alpha=0.03", "tag": tag, "model": ms, "alpha": 0.03, "pf": float(rng.uniform(0.1, 1.0)), "n_points": 6 if quick else 12,
                       "rs": "int", "seed": S(), "cost": 3.0})
     # reproducibility
     for i, tag in enumerate(fixed[:2]):
